@@ -267,7 +267,7 @@ func runCheck(args []string) int {
 	}
 	// bounded stand-ins (thorough tier, or for drifted functions)
 	var boundedRes []map[string]interface{}
-	if tier == "thorough" || len(drift) > 0 {
+	if true { // bounded stand-ins are cheap: they run in both tiers (labelled bounded, never counted as proved)
 		for _, b := range cfg.Bounded {
 			ok, out := runGoTest(b.Pkg, b.File, b.Test, "", seed, 600)
 			boundedRes = append(boundedRes, map[string]interface{}{"name": b.Name, "bound": b.Bound, "passed": ok, "label": "bounded"})
